@@ -75,7 +75,8 @@ def classify(ops):
 def gen_sessions(rng, world, nsess, reset="rollback", queue=True, chars=False, kbi=False):
     k = 1
     for s in range(nsess):
-        auto = False
+        # under AUTOCOMMIT no savepoints are generated (SQLite would open a transaction for them)
+        auto = "auto" in world.engine_opts
         if chars and rng.random() < 0.45:
             # several execution_options() calls in varying order
             for _ in range(rng.randint(1, 3)):
@@ -130,8 +131,10 @@ def gen_sessions(rng, world, nsess, reset="rollback", queue=True, chars=False, k
                     # a cursor()/execute() fault that did not fire must not linger: the
                     # isolation-level reset at check-in also runs a statement
                     yield "D"
-            elif nh:
+            elif nh and not auto:
                 yield rng.choice("crxeof") + str(rng.randrange(nh))
+            elif nh:
+                yield rng.choice("crx") + str(rng.randrange(nh))
             else:
                 yield "q"
         if kbi and rng.random() < 0.35:
@@ -183,7 +186,7 @@ def replay_ops(ops, reset, poolclass="QueuePool", engine_opts="none"):
 
 def modelled(ops, engine_opts):
     """histories the Lean model covers (the rest is checked by the oracle only)"""
-    return engine_opts == "none" and not any(t in ("L", "U", "O", "LA") or (t[0] == "F" and t[2] == "k") for t in ops)
+    return not any(t[0] == "F" and t[2] == "k" for t in ops)
 
 
 FIXED = [
@@ -238,19 +241,19 @@ def run(ctx, deep=False):
         if poolclass == "QueuePool" and modelled(ops, engine_opts):
             cases.append(case)
             impl_out.append("|".join(recs) if recs else "-")
-            reqs.append(lib_txn.driver_line(ops, reset))
+            reqs.append(lib_txn.driver_line(ops, reset, engine_opts=engine_opts))
 
     for s, reset in FIXED:
         ops = s.split(";")
         check(ops, replay_ops(ops, reset), reset)
-    n = 6000 if big else 900
+    n = 6000 if big else 600
     for i in range(n):
         reset = ctx.rng.choice(["rollback", "rollback", "commit", "none"])
         ops, recs = run_history(ctx.rng, ctx.rng.randint(1, 4), reset)
         check(ops, recs, reset)
         if i % 300 == 0:
             ctx.sample({"reset": reset, "ops": ";".join(ops), "last": recs[-1]})
-    n2 = 1200 if big else 200
+    n2 = 1200 if big else 120
     for i in range(n2):
         reset = ctx.rng.choice(["rollback", "commit"])
         pc = ctx.rng.choice(OTHER_POOLS)
@@ -258,7 +261,7 @@ def run(ctx, deep=False):
         check(ops, recs, reset, pc)
     # connection characteristics (several execution_options calls, engine- and connection-level)
     # and BaseException during reset-on-return, on every pool class: oracle only
-    n3 = 2400 if big else 300
+    n3 = 2400 if big else 220
     for i in range(n3):
         reset = ctx.rng.choice(["rollback", "rollback", "commit"])
         pc = ctx.rng.choice(["QueuePool", "QueuePool"] + OTHER_POOLS)
